@@ -1179,3 +1179,595 @@ def r11(cx):
 
 
 RS.explanation += ' A successful assignment removes the LineNumber quirk (R11).'
+
+
+# ---------------------------------------------------------------------------------------
+# added after the fix commits 1860a4a, 6f410ec, 4fe2991, f728452 (rules R12-R15)
+import facts as _facts
+GOCV = 'yash_env::Env::<S>::get_or_create_variable'
+VREF_ASSIGN = [re.compile(r"^yash_env::variable::main::VariableRefMut(::<'_>)?::assign$")]
+VREF_METHOD = re.compile(r"^yash_env::variable::main::VariableRefMut(::<'_>)?::|^<yash_env::variable::main::VariableRefMut<'_> as ")
+OPT_IS = {'core::option::Option::<T>::is_some': 'Some', 'core::option::Option::<T>::is_none': 'None'}
+
+
+def _modifies(body, blk, local):
+    """Block `blk` may change which variant the enum in `local` holds: a write to it (or into it), a `&mut` borrow of it, a move
+    of the whole of it (moving a field out - `Some(v) => v` - leaves the variant as it is)."""
+    def whole_move(o):
+        return isinstance(o, dict) and 'mv' in o and o['mv']['l'] == local and not o['mv'].get('p')
+    for s in body.blocks[blk]['s']:
+        if s.get('k') in ('assign', 'setdiscr') and s['lhs']['l'] == local:
+            return True
+        rv = s.get('rv')
+        if not rv:
+            continue
+        if rv.get('k') == 'ref' and rv.get('mut') and rv['pl']['l'] == local:
+            return True
+        if any(whole_move(o) for o in Q.rvalue_operands(rv)):
+            return True
+    t = body.term(blk)
+    return t['k'] == 'call' and (t['dest']['l'] == local or any(whole_move(a) for a in t['a']))
+
+
+def _option_fact(du, org, lab):
+    """(local, variant, block of the test) when a tested condition says which variant a plain Option local holds:
+    `x.is_some()` / `x.is_none()` (possibly negated) or a discriminant test of x."""
+    org, lab = Q.peel_not(du, org, lab)
+    if org.get('k') == 'call' and lab and lab[0] == 'bool' and pp.callee(org['t']) in OPT_IS and org['t']['a']:
+        pl = _trace_place(du, org['t']['a'][0])
+        if pl is not None and not pl.get('p'):
+            v = OPT_IS[pp.callee(org['t'])]
+            if not lab[1]:
+                v = 'None' if v == 'Some' else 'Some'
+            return pl['l'], v, org.get('b')
+    if org.get('k') == 'discr' and lab and lab[0] == 'variant' and lab[1] in ('Some', 'None'):
+        pl = du.deref_origin(org['pl'])                      # `match &x` tests discriminant(*_r) with _r = &x
+        if not pl.get('p'):
+            return pl['l'], lab[1], org.get('b')
+    return None
+
+
+def _option_facts_at(F, body, du, c):
+    """{local: variant} that holds whenever block c is entered: taken from the conditions that dominate c, kept only when no block
+    on a way from the test to c can change the local."""
+    known, contradicted = {}, set()
+    for org, lab, e in Q.implied_conditions(F, body, du, c):
+        f = _option_fact(du, org, lab)
+        if f is None or f[2] is None:
+            continue
+        l, v, tb = f
+        after = set()
+        for s in body.succ(tb):
+            after |= body.reachable(s, removed={tb})
+        between = {d for d in after if d != c and c in body.reachable(d, removed={tb})}
+        if any(_modifies(body, d, l) for d in between):
+            continue
+        if known.get(l, v) != v:
+            contradicted.add(l)
+        known[l] = v
+    return {l: v for l, v in known.items() if l not in contradicted}
+
+
+def _path_knowing(F, body, du, start, goals, removed, known0):
+    """Shortest path start -> goals avoiding `removed`, that never takes a switch edge contradicting what is known about Option
+    locals (known0 at `start`; knowledge about a local is dropped after a block that may change it). None if there is none."""
+    from collections import deque
+    goals, removed = set(goals), set(removed)
+    tracked = sorted(known0)
+    st0 = (start, tuple(sorted(known0.items())))
+    prev = {st0: None}
+    q = deque([st0])
+    while q:
+        b, kn = q.popleft()
+        if b in goals and prev[(b, kn)] is not None:
+            path, cur = [], (b, kn)
+            while cur is not None:
+                path.append(cur[0])
+                cur = prev[cur]
+            return path[::-1]
+        known = {l: v for l, v in kn if not _modifies(body, b, l)}
+        only = None
+        ec = Q.edge_condition(F, body, du, b) if known else None
+        if ec:
+            org, labels = ec
+            ok = set()
+            decided = False
+            for tgt, labs in labels.items():
+                for lab in labs:
+                    f = _option_fact(du, org, lab)
+                    if f is not None and f[0] in known:
+                        decided = True
+                        if known[f[0]] == f[1]:
+                            ok.add(tgt)
+            if decided and ok:
+                only = ok
+        for s in body.succ(b):
+            if s in removed or (only is not None and s not in only):
+                continue
+            st = (s, tuple(sorted(known.items())))
+            if st in prev:
+                continue
+            prev[st] = (b, kn)
+            q.append(st)
+    return None
+
+
+@RS.rule('C16.R12', 'K-PASS', 'the allexport option exports a variable only where a value is assigned to it: every use of '
+         'Env::get_or_create_variable (the accessor that applies allexport) is followed, on every feasible path, by VariableRefMut::assign '
+         'on the variable it returned - an operand / code path that assigns nothing obtains the variable without the option')
+def r12(cx):
+    F = cx.F
+    direct = F.callers_of(lambda names, t: GOCV in names)
+    cx.require(direct, 'Env::get_or_create_variable has no caller (renamed? the allexport accessor moved)')
+    # a function that hands the variable on to its caller (returns the VariableRefMut) is analysed in place at its call sites
+    wrappers = set()
+    for b, blk, t in direct:
+        if 'VariableRefMut' in str((F.fns.get(b.fn) or {}).get('output') or ''):
+            wrappers.add(b.fn)
+    work = {}
+    for b, blk, t in direct + (F.callers_of(lambda names, t: any(n in wrappers for n in names)) if wrappers else []):
+        if b.fn not in wrappers:
+            work[b.fn] = b
+    n_sites = 0
+    for fn in sorted(work):
+        b0 = work[fn]
+        own = _facts.same_module_private(F, b0.root)
+        body = F.inlined(b0, lambda callee, own=own: callee in wrappers or own(callee))
+        cx.fn(fn)
+        du = Q.DefUse(body)
+        left = Q.find_calls(body, sorted(wrappers)) if wrappers else []
+        cx.require(not left, '%s: the wrapper %s of get_or_create_variable could not be analysed in place' % (fn, [pp.callee(t) for _, t in left]))
+        for c, t in Q.find_calls(body, [GOCV]):
+            n_sites += 1
+            dest = t['dest']['l']
+            mine = Q.forward_taint(body, {dest}, through_calls=[])
+            assigns = {blk for blk, at in Q.find_calls(body, VREF_ASSIGN) if at['a'] and Q.operand_local(at['a'][0]) in mine}
+            known = _option_facts_at(F, body, du, c)
+            p = None
+            if t.get('to') is not None and t['to'] not in assigns:
+                p = _path_knowing(F, body, du, t['to'], set(body.return_blocks()) | {c}, assigns, known)
+            shown = {body.local_name(l): v for l, v in sorted(known.items())}
+            cx.site('%s: get_or_create_variable at %s; known there: %s; assign sites on the returned variable: %d; every feasible path assigns: %s'
+                    % (fn, body.loc(t), shown or '-', len(assigns), p is None))
+            if p is None:
+                continue
+            handed = [pp.callee(ot) for ob, ot in body.calls() if ob in p and ob != c and not VREF_METHOD.search(pp.callee(ot) or '')
+                      and not Q.callee_is(ot, [re.compile(r'Deref(Mut)?>?::deref(_mut)?$')])
+                      and any(Q.operand_local(a) in mine for a in ot['a'] if Q.operand_local(a) is not None)]
+            cx.require(not handed, '%s: the variable obtained with get_or_create_variable is handed to %s before any assignment is seen; '
+                       'review whether that function assigns' % (fn, handed))
+            cx.violation(b0.root, 'allexport-without-assignment', 'a variable is obtained with Env::get_or_create_variable (which exports it '
+                         'when the allexport option is on) on a path that never assigns to it: with `x=1; set -a; readonly x` (an operand '
+                         'without a value) x is exported although nothing was assigned; the option applies only to variables that are '
+                         'assigned to', loc=body.loc(t), path=Q.render_path(body, p))
+    cx.floor(n_sites, 9, 'uses of get_or_create_variable (10 counted by hand: cd, getopts x3, read, typeset, simple-command assignment, for, ${x=w}, $((x=..)))')
+
+
+# ------------------------------------------------------------------ R13 (fix 6f410ec)
+VIEW_CALLS = [re.compile(r'Deref(Mut)?>?::deref(_mut)?$'), re.compile(r'(AsRef|Borrow)(<.*>)?>?::(as_ref|borrow)$'),
+              re.compile(r'^alloc::string::String::(as_str|as_mut_str)$'), re.compile(r'Clone>?::clone$')]
+
+
+def _trace_view(du, operand, depth=8):
+    """_trace_place, continued through calls that only give another view of the same value (deref, as_str, as_ref, borrow, clone)."""
+    o = operand
+    pl = None
+    for _ in range(depth):
+        pl = _trace_place(du, o)
+        if pl is None:
+            return None
+        d = du.single_def(pl['l'])
+        if d is not None and d[1] == 't' and d[2].get('a') and Q.callee_is(d[2], VIEW_CALLS) and all(e == '*' for e in pl.get('p') or []):
+            o = d[2]['a'][0]
+            continue
+        return pl
+    return pl
+
+
+def _const_text(o):
+    return str(o.get('c')) if isinstance(o, dict) and 'c' in o and 'cp' not in o and 'mv' not in o else None
+
+
+@RS.rule('C16.R13', 'K-GUARD', 'every string env_c_strings() emits is a well-formed `name=value` entry: a C string is built only where the '
+         'name of the variable (the key of all_variables) has been tested to be non-empty and to contain no `=` (both documented on '
+         'env_c_strings)')
+def r13(cx):
+    F = cx.F
+    cb = F.inlined(F.body(ECS + '::{closure#0}'))
+    cx.fn(cb.fn)
+    du = Q.DefUse(cb)
+    cx.require(cb.argc >= 2 and str(cb.locals[2].get('ty', '')).startswith('(&alloc::string::String,'),
+               'the closure of env_c_strings no longer takes the (name, variables) entry of all_variables as its argument')
+
+    def is_name(o):
+        pl = _trace_view(du, o)
+        pr = (pl or {}).get('p') or []
+        return pl is not None and pl['l'] == 2 and bool(pr) and isinstance(pr[0], dict) and str(pr[0].get('f')) == '0'
+
+    def name_test(org, lab):
+        """'nonempty' | 'no-equals' | 'other' (a test of the name this rule does not understand) | None (not about the name)"""
+        org, lab = Q.peel_not(du, org, lab)
+        if lab[0] != 'bool':
+            if org.get('k') == 'discr':
+                src = Q.value_source(cb, du, {'cp': {'l': org['pl']['l']}})
+                if src is not None and any(is_name(a) for a in src['a']):
+                    if Q.callee_is(src, [re.compile(r'^core::str::<impl str>::(find|rfind|split_once|rsplit_once)$')]) and \
+                            _const_text(src['a'][1]) in ("'='", '"="') and lab == ('variant', 'None'):
+                        return 'no-equals'
+                    return 'other'
+            return None
+        if org.get('k') == 'call':
+            t = org['t']
+            if not any(is_name(a) for a in t['a']):
+                return None
+            callee = pp.callee(t) or ''
+            if re.search(r'^(alloc::string::String|core::str::<impl str>)::is_empty$', callee):
+                return 'nonempty' if lab[1] is False else 'other'
+            if re.search(r'^core::str::<impl str>::contains$', callee) and _const_text(t['a'][1]) in ("'='", '"="'):
+                return 'no-equals' if lab[1] is False else 'other'
+            if re.search(r'PartialEq(<.*>)?>?::(eq|ne)$', callee) and any(_const_text(a) == '""' for a in t['a']):
+                return 'nonempty' if lab[1] is callee.endswith('::ne') else 'other'
+            return 'other'
+        if org.get('k') == 'binop':
+            rv = org['rv']
+            srcs = [du.origin(rv[x]) for x in ('a', 'b')]
+            lens = [i for i, s in enumerate(srcs) if s['k'] == 'call' and re.search(r'^(alloc::string::String|core::str::<impl str>)::len$', pp.callee(s['t']) or '')
+                    and any(is_name(a) for a in s['t']['a'])]
+            if not lens:
+                return None
+            other = srcs[1 - lens[0]]
+            n = _const_text(other['o']) if other['k'] == 'const' else None
+            n = re.sub(r'_?usize$', '', n) if n is not None else None
+            op, v = rv['op'], lab[1]
+            if lens[0] == 1:                                    # constant on the left: mirror the comparison
+                op = {'Lt': 'Gt', 'Gt': 'Lt', 'Le': 'Ge', 'Ge': 'Le'}.get(op, op)
+            if n == '0' and ((op, v) in (('Eq', False), ('Ne', True), ('Gt', True), ('Le', False))):
+                return 'nonempty'
+            if n == '1' and ((op, v) in (('Ge', True), ('Lt', False))):
+                return 'nonempty'
+            return 'other'
+        return None
+
+    makers = Q.find_calls(cb, [re.compile(r'^alloc::ffi::c_str::CString::new$'), re.compile(r'CString::(new|from_vec_unchecked|from_vec_with_nul)')])
+    cx.require(makers, 'env_c_strings no longer builds CStrings in its closure')
+    seeds = {s_['lhs']['l'] for _, _, s_ in cb.stmts() if s_['k'] == 'assign' and
+             any(pl_['l'] == 2 and (pl_.get('p') or [None])[0] and isinstance(pl_['p'][0], dict) and str(pl_['p'][0].get('f')) == '0'
+                 for pl_ in Q.rvalue_places(s_['rv']))}
+    # what is computed from the name by calls that return something about it (not the string under construction, which starts as a clone)
+    from_name = Q.forward_taint(cb, seeds, stop_calls=[re.compile(r'Clone>?::clone$'), re.compile(r'ToOwned>?::to_owned$'),
+                                                         re.compile(r'ToString>?::to_string$')])
+    for b, t in makers:
+        got = {}
+        for org, lab, e in Q.implied_conditions(F, cb, du, b):
+            k = name_test(org, lab)
+            if k:
+                got.setdefault(k, []).append(cb.loc(org['t']) if org.get('k') == 'call' else 'bb%d' % e[0])
+        if 'nonempty' not in got or 'no-equals' not in got:
+            # a test of the name need not be a single dominating edge (or-patterns): a switch on something computed from the name
+            # that decides whether the string is built is a test this rule does not understand
+            for u in sorted(cb.live_blocks()):
+                ec = Q.edge_condition(F, cb, du, u)
+                if not ec or u == b or any(name_test(ec[0], lab_) in ('nonempty', 'no-equals')
+                                            for lab_ in (('bool', True), ('bool', False), ('variant', 'None'))):
+                    continue                                # an understood test, on an edge that does not dominate: not a guard
+                o_ = ec[0]
+                ops = [Q.operand_local(a) for a in o_['t']['a']] if o_.get('k') == 'call' else [o_['pl']['l']] if o_.get('pl') else \
+                    [Q.operand_local(x) for x in Q.rvalue_operands(o_['rv'])] if o_.get('rv') else []
+                if any(l in from_name for l in ops if l is not None):
+                    reach = [s_ == b or b in cb.reachable(s_, removed={u}) for s_ in cb.succ(u)]
+                    if any(reach) and not all(reach):
+                        got.setdefault('other', []).append('bb%d' % u)
+        cx.site('%s: CString::new at %s; name tested non-empty: %s; name tested free of `=`: %s; other tests of the name: %d'
+                % (cb.fn, cb.loc(t), 'nonempty' in got, 'no-equals' in got, len(got.get('other', []))))
+        for want, desc, msg in (
+                ('nonempty', 'empty-name-in-environment',
+                 'an environment string is built for a variable whose name may be empty: after `export =a=b` (which creates a variable '
+                 'with an empty name) utilities are given the malformed entry `=a=b`'),
+                ('no-equals', 'equals-sign-in-name-in-environment',
+                 'an environment string is built for a variable whose name may contain `=`: the entry `a=b=c` is read by the utility as '
+                 'the variable a with the value b=c')):
+            if want in got:
+                continue
+            cx.require('other' not in got, '%s: the name is tested in a way this rule does not understand (%s); cannot tell whether the '
+                       '%s test is there' % (cb.fn, got.get('other'), want))
+            cx.violation(ECS, desc, msg, loc=cb.loc(t))
+
+
+# ------------------------------------------------------------------ R14 (fix 4fe2991)
+import hirq as H
+VSET_INIT = VSET + '::init'
+VSET_GET_OR_NEW = VSET + '::get_or_new'
+VSET_LOOKUPS = [VSET + '::get', VSET_GET_OR_NEW]
+# variables that start-up resets whatever the environment says (doc comment of VariableSet::init: "IFS and OPTIND are always assigned")
+ALWAYS_INITIALISED = {
+    'IFS': 'POSIX: the shell sets IFS to <space><tab><newline> when it is invoked (a value imported from the environment is ignored)',
+    'OPTIND': 'POSIX: OPTIND is initialised to 1 when the shell is invoked',
+}
+
+
+def _const_str(F, v, depth=4):
+    """String value of a const_eval result: a literal, or a named const whose initialiser is a string literal."""
+    if isinstance(v, str):
+        return v
+    if depth and isinstance(v, tuple) and len(v) == 2 and v[0] == 'path' and v[1] in F.hir:
+        return _const_str(F, H.const_eval(F.hir[v[1]]['body']), depth - 1)
+    return None
+
+
+def _names_denoted(F, body, du, operand):
+    """The variable names (strings) a name operand can denote in `init`: a string / named constant, or one column of a constant
+    table that is being iterated (`for &(name, value) in TABLE`). None when not understood."""
+    def of_const(c):
+        if c.get('cdef'):
+            s = _const_str(F, ('path', c['cdef']))
+            return [s] if s is not None else None
+        txt = _const_text(c)
+        return [txt[1:-1]] if txt and len(txt) >= 2 and txt[0] == '"' == txt[-1] else None
+    o = du.origin(operand)
+    if o['k'] == 'const':
+        return of_const(o['o'])
+    pl = _trace_view(du, operand)
+    if pl is None:
+        return None
+    if all(e == '*' for e in pl.get('p') or []):             # `&*C` with `_c = const C`
+        o = du.origin({'cp': {'l': pl['l']}})
+        if o['k'] == 'const':
+            return of_const(o['o'])
+    d = du.single_def(pl['l'])
+    if d is None or d[1] != 't' or not Q.callee_is(d[2], [re.compile(r'Iterator>?::next$')]):
+        return None
+    src = Q.value_source(body, du, d[2]['a'][0])
+    hops = 0
+    while src is not None and hops < 4 and not Q.callee_is(src, [re.compile(r'IntoIterator>?::into_iter$'),
+                                                                  re.compile(r'(Vec::<T, A>|slice::<impl \[T\]>)::iter$')]):
+        src = Q.value_source(body, du, src['a'][0]) if src.get('a') else None
+        hops += 1
+    if src is None or not src.get('a'):
+        return None
+    table = du.origin(src['a'][0])
+    if table['k'] != 'const' or not table['o'].get('cdef') or table['o']['cdef'] not in F.hir:
+        return None
+    rows = H.const_eval(F.hir[table['o']['cdef']]['body'])
+    if not isinstance(rows, list):
+        return None
+    col = [int(e['f']) for e in pl.get('p') or [] if isinstance(e, dict) and 'f' in e and not e.get('adt') and str(e['f']).isdigit()]
+    out = []
+    for r in rows:
+        for c in col:
+            r = r[c] if isinstance(r, tuple) and c < len(r) else None
+        s = _const_str(F, r)
+        if s is None:
+            return None
+        out.append(s)
+    return out
+
+
+@RS.rule('C16.R14', 'K-GUARD', 'start-up does not overwrite what the environment provided: VariableSet::init (which runs after the '
+         'environment has been imported) assigns a default only to a variable that has no value, except the documented always-initialised '
+         'variables IFS and OPTIND - which it does assign unconditionally')
+def r14(cx):
+    F = cx.F
+    # start-up order (yash-cli): extend_env (import) precedes configure_environment -> Env::init_variables -> VariableSet::init
+    RUN = 'yash_cli::run_as_shell_process'
+    rb = F.main_body(RUN)
+    cx.fn(rb.fn)
+    imports = Q.find_calls(rb, [VSET + '::extend_env'])
+    confs = Q.find_calls(rb, ['yash_cli::startup::configure_environment'])
+    cx.require(imports and confs, 'run_as_shell_process no longer imports the environment (extend_env) and then calls configure_environment')
+    ordered = all(any(rb.dominates(ib, cb_) and ib != cb_ for ib, _ in imports) for cb_, _ in confs)
+    via = [b.root for b, blk, t in F.callers_of(lambda names, t: VSET_INIT in names)]
+    via2 = [b.root for b, blk, t in F.callers_of(lambda names, t: any(n in via for n in names))]
+    cx.site('start-up order: extend_env at %s dominates configure_environment at %s: %s; VariableSet::init is called by %s, called by %s'
+            % (rb.loc(imports[0][1]), rb.loc(confs[0][1]), ordered, sorted(set(via)), sorted(set(via2))))
+    cx.require(ordered and 'yash_cli::startup::configure_environment' in via2,
+               'the start-up order changed (environment import no longer precedes configure_environment -> init_variables -> init): '
+               'review whether init may still overwrite imported variables')
+
+    body = F.inlined(F.main_body(VSET_INIT))
+    cx.fn(body.fn)
+    du = Q.DefUse(body)
+
+    def var_source(operand):
+        """the get / get_or_new call a Variable / VariableRefMut operand comes from (through views, moves, `?`)"""
+        o = operand
+        for _ in range(6):
+            pl = _trace_view(du, o)
+            if pl is None:
+                return None
+            src = Q.value_source(body, du, {'cp': {'l': pl['l']}})
+            if src is None:
+                return None
+            if Q.callee_is(src, VSET_LOOKUPS):
+                return src
+            if Q.callee_is(src, VIEW_CALLS + [re.compile(r'^core::option::Option::<T>::(as_ref|as_deref|unwrap|expect)$')]) and src.get('a'):
+                o = src['a'][0]
+                continue
+            return None
+        return None
+
+    def names_of(call):
+        return _names_denoted(F, body, du, call['a'][1]) if len(call['a']) > 1 else None
+
+    def closure_tests_value(operand, want):
+        """the closure passed tests `var.value.<want>()` and returns the result"""
+        o = du.origin(operand)
+        cdef = o['rv'].get('def') if o['k'] == 'agg' and o['rv'].get('ak') == 'closure' else None
+        c = F.bodies.get(cdef) if cdef else None
+        if c is None:
+            return False
+        cdu = Q.DefUse(c)
+        calls = [(b, t) for b, t in c.calls() if not Q.callee_is(t, VIEW_CALLS)]
+        if len(calls) != 1 or pp.callee(calls[0][1]) != 'core::option::Option::<T>::' + want or calls[0][1]['dest']['l'] != 0:
+            return False
+        pl = _trace_place(cdu, calls[0][1]['a'][0])
+        return pl is not None and _projects(pl, VAR, 'value')
+
+    def guard(org, lab, names, related):
+        """'no-value' (the edge is taken only when the variable has no value) | 'other' (a test of something computed from a lookup
+        of the same variable, not understood) | None (unrelated)"""
+        k = understood(org, lab, names)
+        if k:
+            return k
+        return 'other' if is_related(org, lab, related) else None
+
+    def is_related(org, lab, related):
+        org, lab = Q.peel_not(du, org, lab)
+        ops = []
+        if org.get('k') == 'call':
+            ops = [Q.operand_local(a) for a in org['t']['a']]
+        elif org.get('k') in ('discr', 'place', 'ref'):
+            ops = [org['pl']['l']]
+        elif org.get('k') in ('binop', 'unop', 'cast'):
+            ops = [Q.operand_local(o) for o in Q.rvalue_operands(org['rv'])]
+        return any(l is not None and l in related for l in ops)
+
+    def understood(org, lab, names):
+        org, lab = Q.peel_not(du, org, lab)
+        if org.get('k') == 'call':
+            t = org['t']
+            callee = pp.callee(t) or ''
+            if not t['a']:
+                return None
+            pl = _trace_view(du, t['a'][0])
+            if pl is not None and _projects(pl, VAR, 'value'):                       # var.value.is_none() / is_some()
+                src = var_source({'cp': {'l': pl['l']}})
+                if src is None or names_of(src) != names:
+                    return None
+                if callee in OPT_IS and lab[0] == 'bool':
+                    return 'no-value' if (OPT_IS[callee] == 'None') is lab[1] else 'other'
+                return 'other'
+            src = var_source(t['a'][0])
+            if src is None or names_of(src) != names:
+                return None
+            if lab[0] == 'bool' and pp.callee(src) == VSET + '::get':
+                if callee == 'core::option::Option::<T>::is_none':                  # no such variable at all
+                    return 'no-value' if lab[1] else 'other'
+                if callee == 'core::option::Option::<T>::is_none_or' and len(t['a']) > 1:
+                    return 'no-value' if lab[1] and closure_tests_value(t['a'][1], 'is_none') else 'other'
+                if callee == 'core::option::Option::<T>::is_some_and' and len(t['a']) > 1:
+                    return 'no-value' if not lab[1] and closure_tests_value(t['a'][1], 'is_some') else 'other'
+            return 'other'
+        if org.get('k') == 'discr':
+            pl = du.deref_origin(org['pl'])
+            o2 = du.origin({'cp': {'l': pl['l']}}) if not pl.get('p') else {'k': 'place', 'pl': pl}
+            if o2['k'] == 'call' and Q.callee_is(o2['t'], [re.compile(r'Clone>?::clone$'), 'core::option::Option::<T>::as_ref',
+                                                           'core::option::Option::<T>::as_deref']) and o2['t']['a']:
+                pl = _trace_view(du, o2['t']['a'][0])
+            elif o2['k'] in ('place', 'ref'):
+                pl = _trace_view(du, {'cp': o2['pl']}) or o2['pl']
+            if pl is not None and _projects(pl, VAR, 'value'):
+                src = var_source({'cp': {'l': pl['l']}})
+                if src is not None and names_of(src) == names:
+                    return 'no-value' if lab == ('variant', 'None') else 'other'
+                return None
+            src = var_source({'cp': {'l': org['pl']['l']}})
+            if src is not None and names_of(src) == names:
+                return 'other'
+        return None
+
+    assigns = Q.find_calls(body, VREF_ASSIGN)
+    cx.require(assigns, 'VariableSet::init no longer assigns defaults with VariableRefMut::assign (anchor moved)')
+    unconditional = set()
+    for b, t in assigns:
+        src = var_source(t['a'][0])
+        cx.require(src is not None and pp.callee(src) == VSET_GET_OR_NEW, 'init: the variable assigned at %s is not obtained with '
+                   'get_or_new in a way this rule understands' % body.loc(t))
+        names = names_of(src)
+        cx.require(names, 'init: cannot tell which variables the assignment at %s targets (neither a constant name nor a column of '
+                   'a constant table)' % body.loc(t))
+        got = {}
+        related = Q.forward_taint(body, {lt['dest']['l'] for lb, lt in Q.find_calls(body, VSET_LOOKUPS) if names_of(lt) == names})
+        for org, lab, e in Q.implied_conditions(F, body, du, b):
+            k = guard(org, lab, names, related)
+            if k:
+                got.setdefault(k, []).append(e)
+        guarded = 'no-value' in got
+        if not guarded:
+            # no single edge need dominate the assignment (`if let Some(true) | None = lookup.map(..)`): a switch on something computed
+            # from a lookup of the same variable that decides whether the assignment is reached is a test this rule does not understand
+            for u in sorted(body.live_blocks()):
+                ec = Q.edge_condition(F, body, du, u)
+                if ec and u != b and is_related(ec[0], ('else',), related):
+                    reach = [s_ == b or b in body.reachable(s_, removed={u}) for s_ in body.succ(u)]
+                    if any(reach) and not all(reach):
+                        got.setdefault('other', []).append((u, u))
+        cx.site('init: assign at %s targets %s; only when the variable has no value: %s%s'
+                % (body.loc(t), names, guarded, '' if guarded or 'other' not in got else ' (tested in a way not understood)'))
+        for n in names:
+            cx.cellcount(1)
+            if guarded:
+                continue
+            if n in ALWAYS_INITIALISED:
+                unconditional.add(n)
+                continue
+            cx.require('other' not in got, 'init: the assignment of %s at %s is behind a test of the variable that this rule does not '
+                       'understand' % (n, body.loc(t)))
+            cx.violation(VSET_INIT, 'overwrites-imported:%s' % n, 'VariableSet::init assigns the default value of %s without testing that the '
+                         'variable has no value; init runs after the environment has been imported, so `%s=\'my> \' yash ...` starts with the '
+                         'default instead (PS4: `PS4=\'my> \' yash -xc \': x\'` traces with `+ `) and the overwritten value is what utilities '
+                         'inherit. Only %s are documented as always initialised' % (n, n, ' and '.join(sorted(ALWAYS_INITIALISED))),
+                         loc=body.loc(t))
+    for n in sorted(ALWAYS_INITIALISED):
+        if n not in unconditional:
+            cx.violation(VSET_INIT, 'not-always-initialised:%s' % n, 'VariableSet::init does not assign %s unconditionally: a value imported '
+                         'from the environment survives start-up (%s)' % (n, ALWAYS_INITIALISED[n]))
+
+
+# ------------------------------------------------------------------ R15 (fix f728452)
+STD_ENV_ITERS = re.compile(r'^std::env::(vars|vars_os|args|args_os)$')
+ITER_ADAPTERS = [re.compile(r'Iterator>?::(filter|filter_map|map|inspect|chain|take_while|skip_while|map_while|flat_map|fuse|peekable)$'),
+                 re.compile(r'IntoIterator>?::into_iter$')]
+
+
+@RS.rule('C16.R15', 'K-CALLERS', 'importing the environment cannot kill the shell: production code never calls std::env::vars (whose iterator '
+         'panics on a name or value that is not valid Unicode); the import that feeds VariableSet::extend_env reads the total accessor '
+         'std::env::vars_os')
+def r15(cx):
+    F = cx.F
+    uses = F.callers_of(lambda names, t: any(STD_ENV_ITERS.match(n) for n in names))
+    count = {}
+    for b, blk, t in uses:
+        nm = next(n for n in (t['f'].get('def'), t['f'].get('decl')) if n and STD_ENV_ITERS.match(n))
+        count[nm] = count.get(nm, 0) + 1
+        cx.fn(b.fn)
+        cx.site('%s calls %s at %s' % (b.root, nm, b.loc(t)))
+        if nm == 'std::env::vars':
+            cx.violation(b.root, 'panicking-accessor:std::env::vars', 'the environment is read with std::env::vars, whose iterator panics when a '
+                         'name or value is not valid Unicode: with any such variable in the environment (`env "$(printf \'X=\\377\')" yash -c :`) '
+                         'the shell dies at start-up with exit status 101. std::env::vars_os is the total accessor (entries the shell cannot '
+                         'represent can be skipped)', loc=b.loc(t))
+    for b in F.bodies.values():
+        if _mentions_fn(b, 'std::env::vars'):
+            cx.violation(b.root, 'panicking-accessor-as-value:std::env::vars', 'std::env::vars is used as a function value; its iterator '
+                         'panics on a non-Unicode environment variable', loc='%s:%s' % (b.file, b.line))
+    # positive example: the matcher sees the calls that exist today, and the import is fed by one of them
+    cx.site('std::env iterator accessors called in production code: %s' % ', '.join('%s x%d' % kv for kv in sorted(count.items())))
+    imports = F.callers_of(lambda names, t: VSET + '::extend_env' in names)
+    cx.require(imports, 'VariableSet::extend_env has no caller: the environment import moved (review how the environment is read)')
+    fed = 0
+    for b, blk, t in imports:
+        du = Q.DefUse(b)
+        src = Q.value_source(b, du, t['a'][1]) if len(t['a']) > 1 else None
+        hops = 0
+        while src is not None and hops < 8 and Q.callee_is(src, ITER_ADAPTERS) and src.get('a'):
+            src = Q.value_source(b, du, src['a'][0])
+            hops += 1
+        name = pp.callee(src) if src is not None else None
+        cx.fn(b.fn)
+        cx.site('%s: extend_env at %s is fed by %s' % (b.root, b.loc(t), name or '<not traced>'))
+        if name in ('std::env::vars_os', 'std::env::vars'):
+            fed += 1
+    cx.require(count.get('std::env::vars_os', 0) + count.get('std::env::vars', 0) >= 1,
+               'production code calls neither std::env::vars_os nor std::env::vars: the environment is read in another way, the matcher '
+               'of this rule would be vacuous (extend_env call sites fed by a std::env accessor: %d)' % fed)
+    # not part of C16 (command-line arguments, not variables), reported for the record
+    if count.get('std::env::args'):
+        cx.site('note (outside C16): std::env::args x%d - its iterator panics on a non-Unicode command-line argument (args_os is total)'
+                % count['std::env::args'])
+
+
+RS.explanation += (' Added after fixes 1860a4a / 6f410ec / 4fe2991 / f728452: every use of Env::get_or_create_variable (the accessor that applies '
+                   'allexport) is followed on every feasible path by assign on the returned variable (R12); env_c_strings builds a string only '
+                   'for a name tested non-empty and free of `=` (R13); VariableSet::init, which runs after the environment import, assigns a '
+                   'default only to a variable without a value, except IFS and OPTIND which it always assigns (R14); production code never '
+                   'calls std::env::vars, whose iterator panics on non-Unicode data - the import reads std::env::vars_os (R15).')
